@@ -274,7 +274,7 @@ pub mod comment {
         rustc_span::create_session_if_not_set_then(config.edition().into(), |_| {
             let psess = ParseSess::new(&config).expect("parse session");
             let file = psess.inner().source_map().new_source_file(
-                rustc_span::FileName::Custom("verif".to_owned()),
+                rustc_span::FileName::Custom("stdin".to_owned()),
                 snippet.to_owned(),
             );
             let span = mk_sp(file.start_pos, file.end_position());
